@@ -46,6 +46,10 @@ def _deduplicate_filter(args):
     return new_args
 
 
+def _is_single_bit(v: int) -> bool:
+    return v != 0 and v & (v - 1) == 0
+
+
 #
 # The simplifiers.
 #
@@ -210,9 +214,11 @@ def eq_simplifier(a, b):
         if a.args[0].op == "BVV" and a.args[0].args[0] == 1:  # 1 ^ expr == 0
             return a.args[1] == 1
 
-        # (expr & a) ^ a == 0  ->  expr & a != 0
+        # (expr & a) ^ a == 0  ->  expr & a != 0, for a single-bit a only: with two bits in a, one of them set
+        # in expr makes the right-hand side true and the left-hand side false
         if (
             a.args[1].op == "BVV"
+            and _is_single_bit(a.args[1].args[0])
             and a.args[0].op == "__and__"
             and a.args[0].args[1].op == "BVV"
             and a.args[0].args[1].args[0] == a.args[1].args[0]
@@ -220,6 +226,7 @@ def eq_simplifier(a, b):
             return a.args[0] != 0
         if (
             a.args[1].op == "BVV"
+            and _is_single_bit(a.args[1].args[0])
             and a.args[0].op == "__and__"
             and a.args[0].args[0].op == "BVV"
             and a.args[0].args[0].args[0] == a.args[1].args[0]
@@ -308,9 +315,10 @@ def ne_simplifier(a, b):
         if a.args[0].op == "BVV" and a.args[0].args[0] == 1:
             return a.args[1] != 1
 
-        # (expr & a) ^ a != 0  ->  expr & a == 0
+        # (expr & a) ^ a != 0  ->  expr & a == 0, for a single-bit a only
         if (
             a.args[1].op == "BVV"
+            and _is_single_bit(a.args[1].args[0])
             and a.args[0].op == "__and__"
             and a.args[0].args[1].op == "BVV"
             and a.args[0].args[1].args[0] == a.args[1].args[0]
@@ -318,6 +326,7 @@ def ne_simplifier(a, b):
             return a.args[0] == 0
         if (
             a.args[1].op == "BVV"
+            and _is_single_bit(a.args[1].args[0])
             and a.args[0].op == "__and__"
             and a.args[0].args[0].op == "BVV"
             and a.args[0].args[0].args[0] == a.args[1].args[0]
